@@ -51,7 +51,8 @@ def gen_cases(rng, tier, rnd):
         steps = [[max(1, rng.choice(lims)), rng.choice(['', s['Sigma'][0], s['Sigma'][0] * 2])] for _ in range(4)]
         cases.append({'spec': s, 'rank': rank, 'abs': hx(a), 'steps': steps, 'big': True})
     while len(cases) < n:
-        a = genpda.needle_pda(rng) if rng.random() < 0.06 else genpda.abstract_pda(rng)
+        r0 = rng.random()
+        a = genpda.needle_pda(rng) if r0 < 0.06 else ({**genpda.ambiguous_stack_pda(rng), 'keep_gamma': True} if r0 < 0.1 else genpda.abstract_pda(rng))
         s, rank = genfa.rename(a, rng)
         cases.append({'spec': s, 'rank': rank, 'abs': hx(a), 'steps': _steps(rng, s, 6)})
     return cases
